@@ -2,6 +2,8 @@
    The engine model with the directory cache switched on: retrieve by (label, rule key, source key) before
    running the command, store after moveOutputs.  Refuted by the directory-hash defect (the stale directory
    is stored under the new key), proved for histories without directory outputs. *)
+(* Proof.Engine_Gen: the record layout / needsBuilding order / cache-key parts regenerated from the source *)
+From PlzV Require Import Proof.Engine_Gen.
 From PlzV Require Import Base.Harness Model.Engine Model.C01 Proof.Engine Proof.C03 Proof.C01.
 
 Definition C02_statement : Prop :=
